@@ -226,6 +226,7 @@ fn main() {
         Some("replay") => cmd_replay(&args[1..]),
         Some("child") => match args.get(1).map(|s| s.as_str()) {
             Some("c03") => props::c03::child_main(args.get(2).map(|s| s.as_str()).unwrap_or("")),
+            Some("c16") => props::c16::child_main(args.get(2).map(|s| s.as_str()).unwrap_or("")),
             _ => 2,
         },
         Some("selftest") => {
